@@ -200,6 +200,9 @@ func (ks *KeyStorage) UnmarshalBinary(data []byte) error {
 	ks.mx.Lock()
 	defer ks.mx.Unlock()
 
+	// UnmarshalVT merges into the message: start from a clean one, so that slots of the previous contents do not survive.
+	ks.underlying.Reset()
+
 	if err := ks.underlying.UnmarshalVT(data); err != nil {
 		return fmt.Errorf("failed to unmarshal key storage: %w", err)
 	}
